@@ -109,6 +109,31 @@ Section Levels.
   Qed.
 End Levels.
 
+Lemma level_ext : forall f g, (forall x, f x = g x) -> forall k s, level f k s = level g k s.
+Proof.
+  intros f g E. induction k as [|k IH]; intros s; cbn [level]; [reflexivity|].
+  rewrite IH. f_equal. unfold flat_step. f_equal.
+  induction s as [|a s IHs]; cbn [flat_map]; [reflexivity|]. rewrite E, IHs. reflexivity.
+Qed.
+
+Lemma rep_levels_ext : forall f g, (forall x, f x = g x) ->
+  forall n k mn s, rep_levels f n k mn s = rep_levels g n k mn s.
+Proof.
+  intros f g E. induction n as [|n IH]; intros k mn s; cbn [rep_levels]; [reflexivity|].
+  rewrite IH. do 2 f_equal. unfold flat_step. f_equal.
+  induction s as [|a s IHs]; cbn [flat_map]; [reflexivity|]. rewrite E, IHs. reflexivity.
+Qed.
+
+Lemma tabulate_eq : forall f i len, i <= len -> (forall x, len < x -> f x = []) ->
+  forall x, tabulate f i (len - i + 1) x = f x.
+Proof.
+  intros f i len Hi Hout x. unfold tabulate. destruct (Nat.ltb x i) eqn:E; [reflexivity|].
+  apply Nat.ltb_ge in E. destruct (Nat.le_gt_cases x len) as [Hx|Hx].
+  - rewrite nth_indep with (d' := f 0) by (rewrite map_length, seq_length; lia).
+    rewrite map_nth. rewrite seq_nth by lia. f_equal. lia.
+  - rewrite nth_overflow; [symmetry; apply Hout; exact Hx|]. rewrite map_length, seq_length. lia.
+Qed.
+
 (* ---- the relation ------------------------------------------------------ *)
 Section Spec.
   Variable nc : bool.
@@ -159,6 +184,14 @@ Section Spec.
       destruct (Nat.leb i (length d)) eqn:E.
       2:{ apply Nat.leb_gt in E. split; [intros []|]. intro H. inversion H; subst. lia. }
       apply Nat.leb_le in E.
+      assert (Hf : forall x, (if Nat.leb (rep_bound mn mx (length d - i)) 4 then ends nc d r
+                              else tabulate (ends nc d r) i (length d - i + 1)) x = ends nc d r x).
+      { intro x. destruct (Nat.leb (rep_bound mn mx (length d - i)) 4); [reflexivity|].
+        apply tabulate_eq; [exact E|]. intros y Hy.
+        destruct (ends nc d r y) as [|j1 js] eqn:Ey; [reflexivity|]. exfalso.
+        assert (Hin : In j1 (ends nc d r y)) by (rewrite Ey; left; reflexivity).
+        apply IH in Hin. apply M_bounds in Hin. lia. }
+      cbv zeta. rewrite (rep_levels_ext _ _ Hf).
       rewrite dedup_In, rep_levels_In. split.
       + intros [t [Ht [Hmn H]]]. apply level_In in H. destruct H as [a0 [[<-|[]] I]].
         apply MRep with (k := t); [exact E|lia| |].
@@ -200,7 +233,7 @@ Section Spec.
     - destruct (nth_error d i); [destruct (cls_match nc c n)|]; repeat constructor; intros [].
     - apply dedup_NoDup.
     - apply dedup_NoDup.
-    - destruct (Nat.leb i (length d)); [apply dedup_NoDup|constructor].
+    - destruct (Nat.leb i (length d)); [cbv zeta; apply dedup_NoDup|constructor].
     - destruct (Nat.leb i (length d) && assert_holds a d i); repeat constructor; intros [].
   Qed.
 
